@@ -10,7 +10,7 @@ TECHNIQUE = 'runtime monitoring: lock-step comparison of wire tap, close/connect
 RULE = ('event sequences from boot over {ACCEPT, REFUSE, TICK (incl. TCP timeout, all same-instant timer orders), peer OPEN valid/'
         'bad version/wrong AS/hold 0,1,2,9, KEEPALIVE, UPDATE empty/with a route, NOTIFICATION (2,1)/(6,2), ROUTE-REFRESH, bad marker, '
         'bad length 18/0/4097, unknown type, peer close/reset, STOP, START} in the single-connection regime, explored breadth-first '
-        'with fingerprint (implementation + model state) de-duplication over three timer configurations, plus random walks; every '
+        'with fingerprint (implementation + model state) de-duplication over three timer configurations, plus random walks; the same search continued from 13 prefix sessions (hold expiry coinciding with the boot timer, second sessions, stopped peerings, hold 0); UPDATEs incl. unknown address family / malformed / length overrun; every '
         'step of every executed sequence is compared with the profile; distinct = distinct abstract states; pairs = (profile state, event) exercised')
 ASSUMPTIONS = ['simulated Twisted reactor/connector/transport (verif/shims)',
                'reference profile vlib/fsm_profile.py: allowed-outcome sets are wider than one behaviour in six documented rows (DESIGN.md 3.3)',
